@@ -163,8 +163,8 @@ Proof.
 Qed.
 
 (* remove_short_tracks: which tracks survive does not depend on their order *)
-Theorem short_tracks_perm_invariant q (ts ts' : list track) :
-  Permutation ts ts' -> Permutation (filter (keeps_track q) ts) (filter (keeps_track q) ts').
+Theorem short_tracks_perm_invariant q (tss tss' : list (list Q)) :
+  Permutation tss tss' -> Permutation (filter (keeps_times q) tss) (filter (keeps_times q) tss').
 Proof. apply Permutation_filter'. Qed.
 
 (* nearest-time lookup returns an index whose distance is minimal *)
